@@ -4,7 +4,7 @@ Real code: CandleManager.trim_candles (after collapse and conversion on every ap
 _find_calc_index on the trimmed list. Clause 1 (window): symbolic second-resolution timestamps, the retained
 timestamps after every append must be exactly those >= newest - lifespan. Clause 2 (readings): concrete 1-minute
 grid, symbolic OHLCV; whenever the property's precondition holds for a schedule (the K candles a new reading may
-need are still retained when it is computed; K = full warm-up length + 1, deliberately generous) the retained
+need are still retained when it is computed; K = max(warm-up index, window parameter) + 2, deliberately generous) the retained
 readings must equal those of a twin without lifespan fed the same way."""
 from datetime import timedelta
 
@@ -22,11 +22,17 @@ def obligations(tier):
     for tf in (None, "T1", "T5"):
         for life in (60, 150, 400):
             obs.append(Ob(f"window/tf={tf}/lifespan={life}s/n={n1}", dict(n=n1, tf=tf, life=life), dict(round="ideal", div="assume"), fn="run_window", weight=50, budget_s=900, max_paths=200000))
+    # the window clause over a gap-filled timeframe: the retained candles are the tail of the contiguous filled series
+    for tf in (("T5",) if tier == "quick" else ("T1", "T5", "H1")):
+        for life_buckets in (1, 2, 3):
+            obs.append(Ob(f"window+fill/tf={tf}/lifespan={life_buckets}buckets/n={n1}", dict(n=n1, tf=tf, life=life_buckets), dict(round="ideal", div="assume"), fn="run_window_fill", weight=60, budget_s=900, max_paths=300000))
     for kind, name, kw, w in all_specs(tier):
         heavy = name in HEAVY
         if tier == "quick" and name in ("ADX", "aroon"):
             continue   # thousands of value paths per schedule: thorough tier only
-        K = w + 2
+        # look-back of a new reading: the warm-up index, or the window parameter where the indicator reports from the very
+        # first candle although it scans `period` / `length` earlier ones (HL, highest, lowest, ...)
+        K = max([w] + [v for k, v in kw.items() if k in ("period", "length", "slow_period", "fast_period") and isinstance(v, int)]) + 2
         for extra_life in ((0, 2) if not heavy else (0,)):
             life = K + extra_life
             n = life + (3 if not heavy else 2)
@@ -111,6 +117,41 @@ def run_window(ctx, P):
                 ctx.equal("retained==window" + lab, got, exp)
 
 
+def run_window_fill(ctx, P):
+    """clause 1 with gap filling on: after every append, retained == the candles of the filled series so far that are
+    not older than newest - lifespan (each a complete bucket or a flat zero-volume filler)"""
+    from harness.tfcommon import ref_fill, lib_view, ref_view
+    _, _, Candle, CandleManager, _ = lib()
+    n, tf = P["n"], P["tf"]
+    tfs = tf_secs(tf)
+    life = P["life"] * tfs
+    t0 = 1704067200 - 3 * 86400
+    span = 8
+    cs, ts = mk_candles_symtime(ctx, n, lo=t0, hi=t0 + (span + 2) * tfs, span=span * tfs)
+    for chunks in ([1] * n, [2] * (n // 2) + [1] * (n % 2), [1, n - 1], [n - 1, 1], "construct"):
+        lab = f"[chunks={'+'.join(map(str, chunks)) if chunks != 'construct' else 'construct'}]"
+        src = clone(cs)
+        if chunks == "construct":
+            m = CandleManager(src, candles_lifespan=timedelta(seconds=life), timeframe=tf, timeframe_fill=True)
+            chunks, pos = [0], n
+        else:
+            m = CandleManager([], candles_lifespan=timedelta(seconds=life), timeframe=tf, timeframe_fill=True)
+            pos = 0
+        for c in chunks:
+            if c:
+                part = src[pos:pos + c]
+                m.append(part if c > 1 else part[0])
+                pos += c
+            filled = ref_fill(ctx, ref_resample(ctx, cs[:pos], ts[:pos], tfs), tfs, span + 1)
+            newest = filled[-1]["ts"]
+            exp = [f for f in filled if bool(f["ts"] >= newest - life)]
+            got = lib_view(ctx, m.candles)
+            if lab == "[chunks=" + "+".join(["1"] * n) + "]" and pos == n:
+                ctx.observe("retained", got)
+            if ctx.require("fill:retained-count" + lab, len(got) == len(exp), f"after {pos} candles: kept {len(got)}, window of the filled series holds {len(exp)}"):
+                ctx.equal("fill:retained==window-of-filled-series" + lab, got, ref_view(exp))
+
+
 def run_readings(ctx, P):
     spec = tuple(P["spec"][:3])
     n, life, K = P["n"], P["life"], P["K"]
@@ -150,9 +191,9 @@ def run_readings(ctx, P):
 
 
 META = dict(
-    bounds=dict(quick="window clause: N=4 symbolic timestamps, lifespans 60/150/400 s, base / T1 / T5 timeframe, appends one-by-one, in pairs, as one chunk; readings clause: every catalogue indicator and analysis wrapper except ADX and Aroon (thorough only), lifespan = K and K+2 minutes on a 1-minute grid (K = warm-up+2), n = lifespan+3 candles, schedules: singles from empty, window preloaded then singles, window-sized chunk then singles, pairs (only where the precondition holds); plus 11 purely recursive indicators (period 3) over a stream whose density drops so that only the newest candle and its predecessor stay in a 60-second window",
+    bounds=dict(quick="window clause: N=4 symbolic timestamps, lifespans 60/150/400 s, base / T1 / T5 timeframe, appends one-by-one, in pairs, as one chunk; readings clause: every catalogue indicator and analysis wrapper except ADX and Aroon (thorough only), lifespan = K and K+2 minutes on a 1-minute grid (K = max(warm-up index, period/length) + 2), n = lifespan+3 candles, schedules: singles from empty, window preloaded then singles, window-sized chunk then singles, pairs (only where the precondition holds); plus 11 purely recursive indicators (period 3) over a stream whose density drops so that only the newest candle and its predecessor stay in a 60-second window",
                 thorough="N=5; periods 2 and 3; n+1"),
     stubs=["exact real arithmetic, uninterpreted rounding and products", "datetime -> integer seconds, UTC"],
-    assumptions=["K = warm-up index + 2 is at least the look-back any shipped indicator needs (a larger K narrows the claim, never raises an alarm)"],
+    assumptions=["K = max(warm-up index, period / length parameter) + 2 is at least the look-back any shipped indicator needs (a larger K narrows the claim, never raises an alarm)"],
     explanation="retained timestamps decided against the window definition for all timestamp patterns; retained readings term-compared with an untrimmed twin for all candle values",
 )
